@@ -690,6 +690,8 @@ class Interp:
             if m is _MISSING:
                 if name in ("__name__", "__qualname__"):
                     return obj.name
+                if name == "__new__":
+                    return _BuiltinMethod(self, "object.__new__", obj)      # allocation without __init__
                 if self.facts.get(Term("dict_has", (f"classdict:{obj.qualname}", name), "bool")) is True:
                     # attribute created at run time by an earlier call (state): an unknown mutable object
                     d = {}
@@ -1274,6 +1276,13 @@ class Interp:
         if isinstance(b, Instance):
             m = self.find_method(b.cls, _RDUNDER.get(op, "?"))
             if m is not None and not hasattr(a, "v_binop"):
+                return self.call_func(m, [b, a], {}, node)
+            if m is not None:
+                # a symbolic int on the left: its own operator does not know the class (NotImplemented), so Python calls the
+                # reflected method of the object on the right
+                r = a.v_binop(op, b, False, self)
+                if r is not NotImplemented:
+                    return r
                 return self.call_func(m, [b, a], {}, node)
             if m is None:
                 raise AnalysisError(f"{self.where(node)}: {b.cls.qualname} has no {_RDUNDER.get(op)}")
